@@ -14,7 +14,11 @@ def rand_packet(rng):
     if r < 0.12:
         base['empty'] = True
         return base
-    if r < 0.25:
+    if r < 0.18:
+        # a payload of type invalid (what the decoder returns for a message that fails validation), any length
+        base.update({'mt': 0, 'pt': 0, 'pl': [0] * rng.choice([0, 1, 16, 40])})
+        return base
+    if r < 0.3:
         mt, pt = rng.choice([(1, 1), (1, 2), (1, 3), (1, 8), (3, 1), (1, 255), (2, 5)])
         base.update({'mt': mt, 'pt': pt, 'pl': []})
         return base
